@@ -228,3 +228,71 @@ def feasible_states(body, fl, kills=None, max_states=20000, keep=None):
                 at_entry[s].add(nf)
                 work.append(st)
     return at_entry
+
+
+# ------------------------------------------------------------------ value-chain provenance
+
+PASS_THROUGH = {"clone", "cloned", "copied", "deref", "deref_mut", "as_ref", "borrow", "unwrap", "expect", "get", "get_mut", "iter", "into_iter",
+                "collect", "to_owned", "into", "unwrap_or", "unwrap_or_default", "as_slice", "to_vec", "by_ref"}
+
+
+def producers(flows, body, operand, depth=0, seen=None):
+    """callees that PRODUCE the value in `operand`, following only value-preserving links (moves,
+    re-borrows, clone/deref/unwrap/get(receiver)/iter/collect on the RECEIVER, parameters to the callers'
+    arguments, closure captures to the captured operand).  Lookup keys and other arguments are not
+    followed.  Returns a set of callee short names; 'param:<fn>' for a public/unknown origin."""
+    prog = flows.prog
+    seen = seen if seen is not None else set()
+    fl = flows.of(body)
+    out = set()
+    if operand is None or operand.place is None or depth > 12:
+        return {"?"}
+    pl = operand.place
+    key = (body.path, pl.local, tuple(str(e) for e in pl.proj))
+    if key in seen:
+        return set()
+    seen.add(key)
+    # closure upvar
+    if body.kind == "closure" and pl.local == 1:
+        up = next((e["f"][1:] for e in pl.proj if isinstance(e, dict) and "f" in e and e["f"].startswith("^")), None)
+        if up is not None:
+            caps = [c["name"] for c in body.item.get("captures", [])]
+            for (pp, st) in flows.closure_sites(body.path):
+                for ci, cn in enumerate(caps):
+                    if cn == up and ci < len(st.rv.ops):
+                        out |= producers(flows, prog.bodies[pp], st.rv.ops[ci], depth + 1, seen)
+            return out or {"?"}
+    l = pl.local
+    if 1 <= l <= body.arg_count:
+        callers = flows.callers().get(body.path, [])
+        if body.kind == "closure" or not callers:
+            return {"param:" + body.short}
+        for (cp, cbb) in callers:
+            cb = prog.bodies[cp]
+            t = cb.blocks[cbb].term
+            if l - 1 < len(t.args):
+                out |= producers(flows, cb, t.args[l - 1], depth + 1, seen)
+        return out
+    defs = body.assigns_to(l)
+    if not defs:
+        return {"?"}
+    for (dbb, d) in defs:
+        if getattr(d, "k", None) == "call":
+            nm = d.callee.short if d.callee else "<indirect>"
+            if nm.split("::")[-1] in PASS_THROUGH and d.args:
+                out |= producers(flows, body, d.args[0], depth + 1, seen)
+            else:
+                out.add(nm)
+        else:
+            rv = d.rv
+            if rv.k in ("use", "cast") and rv.ops and rv.ops[0].place is not None:
+                out |= producers(flows, body, rv.ops[0], depth + 1, seen)
+            elif rv.k in ("ref", "copyderef") and rv.place is not None:
+                from flow import _LocalOperand
+
+                op = _LocalOperand(rv.place.local, body.local_ty(rv.place.local))
+                op.place.proj = [e for e in rv.place.proj if e != "*"]
+                out |= producers(flows, body, op, depth + 1, seen)
+            else:
+                out.add("<%s>" % rv.k)
+    return out
